@@ -64,7 +64,7 @@ def run_tlc(module, cfg=None, *, workdir, env=None, workers=16, timeout=900, sim
     tag = f"{module}_{os.getpid()}_{int(time.time() * 1000) % 100000000}_{next(_COUNTER)}"
     metadir = workdir / ("meta_" + tag)
     out_path = workdir / (tag + ".out")
-    cmd = ["java", "-XX:+UseParallelGC", f"-Xmx{heap}"]
+    cmd = ["java", "-XX:+UseParallelGC", f"-Xmx{heap}", "-Xss64m"]     # deep (but finite) recursive definitions
     if dfs:
         cmd.append("-Dtlc2.tool.queue.IStateQueue=StateDeque")
     cmd += ["-cp", JAR_CP, "tlc2.TLC", "-workers", str(workers), "-metadir", str(metadir),
